@@ -430,7 +430,17 @@ func main() {
 				"a.xgo": "package foo\n\nvar V1 [3]int\nvar V2 [4]int\nvar V3 [5]int\nvar V4 [6]int\n",
 				"b.go":  "package foo\n\ntype A struct { x [len(V4)]int }\ntype B struct { x [len(V3)]int }\ntype C struct { x [len(V2)]int }\n"}},
 		)
-		cases = append(cases, corpusCases(n+3)...)
+		cases = append(cases,
+			&pkgCase{ID: n + 3, Kind: "rich", Files: map[string]string{ // same stem, different extension
+				"Rect.gox": "var (\n\tW, H int\n)\n\nfunc Area() int {\n\treturn W * H\n}\n",
+				"Rect.xgo": "func F1() int {\n\treturn 1\n}\n\nvar X1 = 1\n",
+				"a.gop":    "func F2() int {\n\treturn 2\n}\n\nvar X2 = 2\n",
+				"a.xgo":    "func F3() int {\n\treturn 3\n}\n\nvar X3 = 3\n"}},
+			&pkgCase{ID: n + 4, Kind: "rich", NErr: 3, Files: map[string]string{ // every entity declared in two files
+				"a.xgo": "package foo\n\ntype Point struct {\n\tX int\n}\n\nconst K = 1\n\nvar V = 2\n\nfunc (p *Point) M() int {\n\treturn 1\n}\n",
+				"b.xgo": "package foo\n\nvar V = 3\n\ntype Point struct {\n\tY int\n}\n\nconst K = 2\n\nfunc (p *Point) M() int {\n\treturn 2\n}\n"}},
+		)
+		cases = append(cases, corpusCases(n+5)...)
 	}
 
 	nIn := 20
@@ -481,6 +491,19 @@ func main() {
 		}
 		first := base[fmt.Sprintf("%d/dir", c.ID)]
 		o.Count("kind_" + c.Kind)
+		for k, v := range c.Stats {
+			o.Stats[k] += v
+		}
+		stems := map[string]int{}
+		for _, n := range names {
+			stems[strings.ToLower(strings.TrimSuffix(n, filepath.Ext(n)))]++
+		}
+		for _, v := range stems {
+			if v > 1 {
+				o.Count("packages_with_colliding_file_stems")
+				break
+			}
+		}
 		o.Count(fmt.Sprintf("files_%d", len(names)))
 		switch {
 		case strings.HasPrefix(first, "OK"):
